@@ -652,8 +652,20 @@ func extra7C19(c *Ctx) {
 	n := 0
 	core.InspectShallow(f.Body, func(nd ast.Node) bool {
 		ifs, ok := nd.(*ast.IfStmt)
-		if !ok || ifs.Else == nil {
+		if !ok {
 			return true
+		}
+		// `if … { append; continue }` followed by the merge counts as if/else
+		var elseBranch ast.Node = ifs.Else
+		if ifs.Else == nil {
+			if len(ifs.Body.List) == 0 {
+				return true
+			}
+			br, isBr := ifs.Body.List[len(ifs.Body.List)-1].(*ast.BranchStmt)
+			if !isBr || br.Tok != token.CONTINUE {
+				return true
+			}
+			elseBranch = &ast.BlockStmt{Lbrace: ifs.End(), Rbrace: ifs.End()}
 		}
 		// which branch appends a new entry (append(list, &msg))?
 		appendsIn := func(b ast.Node) (types.Object, bool) {
@@ -677,7 +689,7 @@ func extra7C19(c *Ctx) {
 			return lst, lst != nil
 		}
 		lstT, inThen := appendsIn(ifs.Body)
-		lstE, inElse := appendsIn(ifs.Else)
+		lstE, inElse := appendsIn(elseBranch)
 		if inThen == inElse {
 			return true
 		}
@@ -710,12 +722,26 @@ func extra7C19(c *Ctx) {
 				bad = core.ExprString(pt)
 				continue
 			}
-			// emptiness test of the list
+			// emptiness test of the list: len(list) against a constant, directly or through a local (last := len(list) - 1)
+			g := c.G(f)
 			isLen := func(e ast.Expr) bool {
-				call, isC := ast.Unparen(e).(*ast.CallExpr)
-				return isC && core.CalleeName(info, call) == "builtin.len" && len(call.Args) == 1 && core.UsesObj(info, call.Args[0], lst)
+				for _, x := range expand(g, e, 2) {
+					found := false
+					ast.Inspect(x, func(q ast.Node) bool {
+						call, isC := q.(*ast.CallExpr)
+						if isC && core.CalleeName(info, call) == "builtin.len" && len(call.Args) == 1 && core.UsesObj(info, call.Args[0], lst) {
+							found = true
+						}
+						return true
+					})
+					if found {
+						return true
+					}
+				}
+				return false
 			}
-			if isLen(be.X) {
+			_, isIdx := ast.Unparen(be.X).(*ast.IndexExpr)
+			if isLen(be.X) && !isIdx && selName(be.X) != "Role" {
 				if _, isC := core.ConstInt(info, be.Y); isC {
 					nEmpty++
 					continue
